@@ -247,12 +247,15 @@ impl Cw20Model {
         let ti: TokenInfoResponse = q(w, &QueryMsg::TokenInfo {})?;
         let mut accounts: Vec<String> = vec![];
         let mut cursor: Option<String> = None;
+        // C01 walks the listing the way a client with a small page size does (a page that comes back
+        // empty ends the walk), other properties only need the set of accounts
+        let page_limit = if cfg.props.c01 { 2 } else { 30 };
         loop {
             let page: AllAccountsResponse = q(
                 w,
                 &QueryMsg::AllAccounts {
                     start_after: cursor.clone(),
-                    limit: Some(30),
+                    limit: Some(page_limit),
                 },
             )?;
             if page.accounts.is_empty() {
